@@ -160,6 +160,7 @@ type genIDMember struct {
 	ociregistry.Interface
 	mu  *sync.Mutex
 	gen map[string]int // base ID -> current generation
+	pad string         // appended to every ID (upload IDs are opaque and may be long: a whole upstream URL with a state token)
 }
 
 func newGenIDMember(r ociregistry.Interface) *genIDMember {
@@ -175,7 +176,7 @@ type genIDWriter struct {
 func (w *genIDWriter) ID() string {
 	w.m.mu.Lock()
 	defer w.m.mu.Unlock()
-	return fmt.Sprintf("%s~%d", w.base, w.m.gen[w.base])
+	return fmt.Sprintf("%s~%d%s", w.base, w.m.gen[w.base], w.m.pad)
 }
 
 func (w *genIDWriter) Write(p []byte) (int, error) {
@@ -198,6 +199,9 @@ func (m *genIDMember) PushBlobChunked(ctx context.Context, repo string, chunk in
 
 func (m *genIDMember) PushBlobChunkedResume(ctx context.Context, repo, id string, off int64, chunk int) (ociregistry.BlobWriter, error) {
 	base, genText, ok := strings.Cut(id, "~")
+	if ok && m.pad != "" {
+		genText, ok = strings.CutSuffix(genText, m.pad)
+	}
 	if !ok {
 		return nil, fmt.Errorf("%w: upload ID %q was not issued by this registry", ociregistry.ErrBlobUploadUnknown, id)
 	}
